@@ -46,6 +46,10 @@ func H264Unit(r *fw.Rand, typ int, size int) []byte {
 // H264Size picks a unit size around the interesting thresholds of the MTU.
 func H264Size(r *fw.Rand, mtu int) int {
 	s := r.Pick(2, 3, mtu-2, mtu-1, mtu, mtu+1, mtu+2, mtu+3, 2*mtu-1, 2*mtu, 2*mtu+1, r.Range(2, 4*mtu+2), r.Range(2, 40), r.Range(2, mtu+4))
+	if mtu > 2 && r.Chance(1, 5) {
+		// k full FU-A fragments (mtu-2 payload bytes each) plus a last fragment of 0, 1 or 2 bytes
+		s = 1 + r.Range(1, 5)*(mtu-2) + r.Pick(0, 1, 2)
+	}
 	if s < 2 {
 		s = 2
 	}
